@@ -5088,7 +5088,8 @@ write_function_forset(ostream &out,
 
       for (++sii; sii != remapsin.end(); ++sii) {
         remap = (*sii);
-        if (remap->_parameters[(int)remap->_has_this]._name != first_param_name) {
+        if (!remap->_parameters[(int)remap->_has_this]._has_name ||
+            remap->_parameters[(int)remap->_has_this]._name != first_param_name) {
           same_first_param = false;
           break;
         }
